@@ -182,7 +182,7 @@ fn corpus_strategy(t: Tier) -> BoxedStrategy<Case> {
 /// writer, no edit); in the quick tier the files whose decode takes seconds are left out.
 fn python_leg_applies(case: &Case) -> bool {
     match &case.source {
-        Source::Generated(_) => true,
+        Source::Generated(_) | Source::Styled(_) | Source::Annot(_) => true,
         Source::Corpus(name) => {
             let quick = std::env::var("VERIF_TIER").map(|t| t != "thorough").unwrap_or(true);
             case.edit.is_none() && !case.light && !(quick && (HEAVY.contains(&name.as_str()) || name == "issue_194_2.xlsx"))
@@ -407,7 +407,8 @@ pub fn check_case(case: &Case, obs: &mut Obs) -> Verdict {
     // orig ~ gen1 incl. resolved styles, gen1 == gen2 == gen3 exactly, table sizes stable)
     if python_leg_applies(case) {
         obs.class("python-leg");
-        if let Err(d) = crate::props::pyleg::c04_leg(src, orig_bytes.as_deref(), &b1, &b2, &b3) {
+        let big = d0.sheets.iter().map(|s| s.cells.len()).sum::<usize>() > crate::props::pyleg::BIG_CELLS;
+        if let Err(d) = crate::props::pyleg::c04_leg(src, orig_bytes.as_deref(), &b1, &b2, &b3, big) {
             return Verdict::fail(d.key, d.detail);
         }
     }
